@@ -11,7 +11,7 @@ from .._backends.base import SOCKET_OPTION, AsyncNetworkBackend, AsyncNetworkStr
 from .._exceptions import ConnectError, ConnectTimeout
 from .._models import Origin, Request, Response
 from .._ssl import default_ssl_context
-from .._synchronization import AsyncLock
+from .._synchronization import AsyncLock, AsyncShieldCancellation
 from .._trace import Trace
 from .http11 import AsyncHTTP11Connection
 from .interfaces import AsyncConnectionInterface
@@ -111,6 +111,7 @@ class AsyncHTTPConnection(AsyncConnectionInterface):
         delays = exponential_backoff(factor=RETRIES_BACKOFF_FACTOR)
 
         while True:
+            stream: AsyncNetworkStream | None = None
             try:
                 if self._uds is None:
                     kwargs = {
@@ -163,6 +164,11 @@ class AsyncHTTPConnection(AsyncConnectionInterface):
                 delay = next(delays)
                 async with Trace("retry", logger, request, kwargs) as trace:
                     await self._network_backend.sleep(delay)
+            except BaseException:
+                if stream is not None:
+                    with AsyncShieldCancellation():
+                        await stream.aclose()
+                raise
 
     def can_handle_request(self, origin: Origin) -> bool:
         return origin == self._origin
